@@ -158,11 +158,12 @@ func c03One(r *Run, snap *slog.VerifRegistry, ops []WOp, asOptions bool, kind st
 	slog.AddFlags(slog.LnoInterrupt)
 	_ = slog.RegisterLevel(slog.Level(customErrLevel), "c03err", slog.RegWithPrintToErrorDevice(true))
 	_ = slog.RegisterLevel(slog.Level(customPlainLevel), "c03plain", slog.RegWithPrintToErrorDevice(false))
-	errdev := map[int]bool{}
+	// the error class per the statement: Panic, Fatal, Error, Warn, Fail and the custom levels
+	// REGISTERED for the error device (not whatever the implementation's table says)
+	errdev := map[int]bool{0: true, 1: true, 2: true, 3: true, 11: true, customErrLevel: true}
 	var errdevList []int
-	for _, l := range slog.VerifErrDev() {
-		errdev[int(l)] = true
-		errdevList = append(errdevList, int(l))
+	for l := range errdev {
+		errdevList = append(errdevList, l)
 	}
 	sort.Ints(errdevList)
 	c := c03Case{Kind: kind, Ops: ops, ErrDev: errdevList}
